@@ -24,7 +24,7 @@ pub fn replay(path: &str) -> i32 {
     let kind = case.get("kind").and_then(|x| x.as_str()).unwrap_or("?").to_string();
     println!("replaying {prop} case kind={kind}");
     println!("stored detail: {}", j.get("detail").and_then(|x| x.as_str()).unwrap_or(""));
-    let run = Run::new(&prop, "quick", 0);
+    let run: &'static Run = Box::leak(Box::new(Run::new(&prop, "quick", 0)));
     match kind.as_str() {
         "position" => {
             let origin = match case.get("origin").ok_or("no origin".to_string()).and_then(Origin::from_json) {
@@ -43,7 +43,7 @@ pub fn replay(path: &str) -> i32 {
             };
             println!("position: {}", g.to_fen());
             let keymap = KeyMap::new();
-            let ctx = Ctx { run: &run, mon: Mon::for_prop(&prop), keymap: &keymap, see_values: mo::probe_see_values() };
+            let ctx = Ctx { run, mon: Mon::for_prop(&prop), keymap: &keymap, see_values: mo::probe_see_values() };
             let mut c = mo::Counts::new();
             let pairs = mo::check_state(&ctx, &p, &g, &origin, &mut c);
             if ctx.mon.needs_transitions() {
@@ -54,7 +54,7 @@ pub fn replay(path: &str) -> i32 {
             }
         }
         other => {
-            if let Some(code) = crate::checks::replay_other(&run, other, &case) {
+            if let Some(code) = crate::checks::replay_other(run, other, &case) {
                 if code != 0 {
                     return code;
                 }
